@@ -695,50 +695,24 @@ func (c *Check) ruleRemovedRangeIsCountedRange(rule string, fRequested, fSize *t
 			continue
 		}
 		n++
-		// loops whose body subtracts from the counter and that range over a slice of the queue
+		// loops whose body subtracts from the counter: the queue indexes they visit, as an interval
 		found, okSame := false, false
-		for _, h := range loopHeadersOf(fn) {
-			rs := rangedSlice(h)
-			if rs == nil {
-				continue
+		want := linOfValue(sl.High)
+		isQueueLen := func(l linComb) bool { // l == len(queue)
+			if l.k != 0 || len(l.terms) != 1 {
+				return false
 			}
-			rsl, ok := stripConv(rs).(*ssa.Slice)
-			if !ok {
-				// index form: `for j := k; j < len(q); j++` over the queue itself
-				if loadOfField(rs, fRequested) != nil {
-					subtracts := false
-					for b := range loopBody(h) {
-						for _, in := range b.Instrs {
-							if s2, ok := in.(*ssa.Store); ok {
-								if fa, ok := s2.Addr.(*ssa.FieldAddr); ok && fieldOfAddr(fa) == fSize {
-									subtracts = true
-								}
-							}
-						}
-					}
-					if subtracts {
-						found = true
-						body := loopBody(h)
-						for _, in := range h.Instrs {
-							phi, isPhi := in.(*ssa.Phi)
-							if !isPhi {
-								break
-							}
-							for i, e := range phi.Edges {
-								if !body[h.Preds[i]] && sameExpr(e, sl.High) {
-									okSame = true
-								}
-							}
-						}
-					}
+			for t, cf := range l.terms {
+				if x := lenOf(l.atoms[t]); cf == 1 && x != nil && loadOfField(x, fRequested) != nil {
+					return true
 				}
-				continue
 			}
-			if loadOfField(rsl.X, fRequested) == nil {
-				continue
-			}
+			return false
+		}
+		for _, h := range loopHeadersOf(fn) {
+			body := loopBody(h)
 			subtracts := false
-			for b := range loopBody(h) {
+			for b := range body {
 				for _, in := range b.Instrs {
 					if s2, ok := in.(*ssa.Store); ok {
 						if fa, ok := s2.Addr.(*ssa.FieldAddr); ok && fieldOfAddr(fa) == fSize {
@@ -750,9 +724,36 @@ func (c *Check) ruleRemovedRangeIsCountedRange(rule string, fRequested, fSize *t
 			if !subtracts {
 				continue
 			}
-			found = true
-			if rsl.Low != nil && rsl.High == nil && sameExpr(rsl.Low, sl.High) {
-				okSame = true
+			// `for _, r := range q[k:]`
+			if rs := rangedSlice(h); rs != nil {
+				if rsl, ok := stripConv(rs).(*ssa.Slice); ok && loadOfField(rsl.X, fRequested) != nil {
+					found = true
+					if rsl.Low != nil && rsl.High == nil && linOfValue(rsl.Low).equal(want) {
+						okSame = true
+					}
+					continue
+				}
+			}
+			// index forms: the queue is indexed by an expression affine in a counted loop's variable
+			cl := countedLoopAt(h)
+			if cl == nil {
+				continue
+			}
+			for b := range body {
+				for _, in := range b.Instrs {
+					ia, ok := in.(*ssa.IndexAddr)
+					if !ok || loadOfField(ia.X, fRequested) == nil {
+						continue
+					}
+					lo, hi, ok := cl.rangeOf(ia.Index)
+					if !ok {
+						continue
+					}
+					found = true
+					if lo.equal(want) && isQueueLen(hi.plusConst(1)) {
+						okSame = true
+					}
+				}
 			}
 		}
 		c.Decide(found && okSame, rule, "state.(*State).ClearBlockRequestsAfter#counted-range-is-removed-range", st.Pos(), "value shape", nil,
